@@ -33,7 +33,7 @@ def classify(p):
     return 1 if l == "upper-triangular" else 2 if l == "symmetric" else 0
 
 
-def vs(v):
+def vfmt(v):
     return "[" + ", ".join(str(t) for t in v) + "]"
 
 
@@ -107,21 +107,21 @@ def run_case(inp, with_obs=True):
             try:
                 vm, vu, vs = (fr(qt.evaluate_QUBO(A, cf, x)), fr(qt.evaluate_QUBO(rU[1], cf, x)), fr(qt.evaluate_QUBO(rS[1], cf, x)))
             except Exception as e:  # noqa
-                rec.fail("oracle/evaluator-raised", f"{type(e).__name__}: {e} while evaluating at {vs(v)}", {**desc, "x": v})
+                rec.fail("oracle/evaluator-raised", f"{type(e).__name__}: {e} while evaluating at {vfmt(v)}", {**desc, "x": v})
                 mevs = None
                 break
             mevs.append((v, vm, vu, vs))
             want = ref_qubo(M, c, v)
             if vm != want:
-                rec.fail("oracle/evaluate_QUBO", f"evaluate_QUBO(M, c, x) = {vm}, exact x'Mx + c = {want} at x={vs(v)}", {**desc, "x": v})
+                rec.fail("oracle/evaluate_QUBO", f"evaluate_QUBO(M, c, x) = {vm}, exact x'Mx + c = {want} at x={vfmt(v)}", {**desc, "x": v})
             if vu != want:
-                rec.fail("oracle/upper-form", f"x'Ux + c = {vu} but x'Mx + c = {want} at x={vs(v)} (U = to_upper_triangular(M))",
+                rec.fail("oracle/upper-form", f"x'Ux + c = {vu} but x'Mx + c = {want} at x={vfmt(v)} (U = to_upper_triangular(M))",
                          {**desc, "x": v, "observed": vu, "expected": want, "python": "props.c13.replay_case(replay)"})
             if vs != want:
-                rec.fail("oracle/sym-form", f"x'Sx + c = {vs} but x'Mx + c = {want} at x={vs(v)} (S = to_symmetric(M))",
+                rec.fail("oracle/sym-form", f"x'Sx + c = {vs} but x'Mx + c = {want} at x={vfmt(v)} (S = to_symmetric(M))",
                          {**desc, "x": v, "observed": vs, "expected": want, "python": "props.c13.replay_case(replay)"})
             if x.tobytes() != xb0:
-                rec.fail("purity/vector", f"the vector {vs(v)} was modified by evaluate_QUBO", {**desc, "x": v})
+                rec.fail("purity/vector", f"the vector {vfmt(v)} was modified by evaluate_QUBO", {**desc, "x": v})
         rec.calls += 3 * len(vectors)
         if (snap(A), snap(rU[1]), snap(rS[1])) != snaps:
             rec.fail("purity/evaluate_QUBO", "evaluate_QUBO modified its matrix argument", dict(desc))
@@ -181,21 +181,21 @@ def run_case(inp, with_obs=True):
                     if isbin and fr(C.get_objective_function_Ising()(s)) != vcs:
                         rec.fail("oracle/container-closure", "get_objective_function_Ising()(s) != evaluate_Ising(s)", {**d2, "x": v})
                 except Exception as e:  # noqa
-                    rec.fail("oracle/evaluator-raised", f"{type(e).__name__}: {e} in the container evaluators at {vs(v)}", {**d2, "x": v})
+                    rec.fail("oracle/evaluator-raised", f"{type(e).__name__}: {e} in the container evaluators at {vfmt(v)}", {**d2, "x": v})
                     cevs = None
                     break
                 cevs.append((v, vcq, vci, vcs))
                 want = ref_qubo(M, c, v)
                 if vcq != want:
                     rec.fail("oracle/container-qubo-value",
-                             f"container.evaluate_QUBO(x) = {vcq} but x'Mx + c = {want} at x={vs(v)} (pattern {pat!r})",
+                             f"container.evaluate_QUBO(x) = {vcq} but x'Mx + c = {want} at x={vfmt(v)} (pattern {pat!r})",
                              {**d2, "x": v, "observed": vcq, "expected": want, "python": "props.c13.replay_case(replay)"})
                 if isbin and vcs != want:
                     rec.fail("oracle/container-ising-value",
-                             f"container.evaluate_Ising(x_to_s(x)) = {vcs} but x'Mx + c = {want} at x={vs(v)} (pattern {pat!r})",
+                             f"container.evaluate_Ising(x_to_s(x)) = {vcs} but x'Mx + c = {want} at x={vfmt(v)} (pattern {pat!r})",
                              {**d2, "x": v, "observed": vcs, "expected": want, "python": "props.c13.replay_case(replay)"})
                 if vci != ref_ising(Jd, hd, ci, v):
-                    rec.fail("oracle/evaluate_Ising", f"container.evaluate_Ising({vs(v)}) = {vci}, exact value from its own J, h, c = {ref_ising(Jd, hd, ci, v)}",
+                    rec.fail("oracle/evaluate_Ising", f"container.evaluate_Ising({vfmt(v)}) = {vci}, exact value from its own J, h, c = {ref_ising(Jd, hd, ci, v)}",
                              {**d2, "x": v})
             rec.calls += 3 * len(vectors)
             if (snap(C.Q), snap(C.J), snap(C.h)) != snapC:
